@@ -447,3 +447,25 @@ impl Db {
         self.tables.iter().find(|t| t.name == name)
     }
 }
+
+/// true if some step evaluates a window function (whose implicit ORDER BY is the sort in effect)
+pub fn steps_have_window(steps: &[Step]) -> bool {
+    steps.iter().any(|s| match s {
+        Step::Select(items) | Step::Derive(items) => items.iter().any(|i| i.expr.has_window()),
+        Step::Filter(e) => e.has_window(),
+        Step::Sort(keys) => keys.iter().any(|k| k.expr.has_window()),
+        Step::Window { .. } => true,
+        Step::Group { inner, .. } => inner.iter().any(|s| !matches!(s, Step::Aggregate(_))),
+        Step::Join { right, .. } | Step::Append(right) => match &right.kind {
+            SrcKind::Sub(p) => steps_have_window(&p.steps),
+            _ => false,
+        },
+        _ => false,
+    })
+}
+
+impl Prog {
+    pub fn has_window(&self) -> bool {
+        steps_have_window(&self.main.steps) || self.lets.iter().any(|l| steps_have_window(&l.pipe.steps))
+    }
+}
